@@ -1437,8 +1437,6 @@ Proof.
 Qed.
 
 (* ---------- key 1 is known to every observer: NewProvider makes it at t0 ---------- *)
-Definition key_one (t0 : Z) : key := {| k_id := 1; k_val := 1; k_nb := t0; k_na := t0 + key_validity |}.
-
 Lemma model_meets_oracle_ghost : forall t0 ops s bs, mono t0 ops -> history t0 ops = Some (s, bs) ->
   C12_ok (BCur 0 t0 (key_one t0) :: bs) = true.
 Proof.
@@ -1492,15 +1490,17 @@ Proof.
   { intros tt k sx Htt Hc. destruct (current_log _ _ _ _ _ _ H Htt Hc) as [Hi [Hink [Hwf _]]].
     destruct (current_step _ _ _ _ _ _ _ H Htt (Z.le_refl tt) Hc) as [_ [_ [Hv [Ha _]]]].
     assert (Hct : cur_time s tt tt = tt) by (unfold cur_time; destruct (need_renew s tt); reflexivity).
-    rewrite Hct in Hv, Ha. repeat split; try assumption; lia. }
+    rewrite Hct in Hv, Ha. split; [assumption|]. split; [assumption|]. split; [lia|]. split; [lia | assumption]. }
   destruct st as [tt | tt kid]; simpl in Ht, Hs.
   - destruct (current s tt tt) as [[k sx]|] eqn:Ec; [|discriminate]. inversion Hs. subst. clear Hs.
     destruct Hin as [Hin | []]. subst K.
-    destruct (Hgen _ _ _ Ht Ec) as [H1 [H2 [H3 [H4 H5]]]]. exists k. repeat split; assumption.
+    destruct (Hgen _ _ _ Ht Ec) as [H1 [H2 [H3 [H4 H5]]]]. exists k.
+    split; [reflexivity|]. split; [assumption|]. split; [assumption|]. split; [assumption|]. split; [assumption|]. split; [assumption | reflexivity].
   - destruct (get s kid tt) as [k0|]; [|discriminate].
     destruct (current s tt tt) as [[k sx]|] eqn:Ec; [|discriminate]. inversion Hs. subst. clear Hs.
     destruct Hin as [Hin | []]. subst K.
-    destruct (Hgen _ _ _ Ht Ec) as [H1 [H2 [H3 [H4 H5]]]]. exists k. repeat split; assumption.
+    destruct (Hgen _ _ _ Ht Ec) as [H1 [H2 [H3 [H4 H5]]]]. exists k.
+    split; [reflexivity|]. split; [assumption|]. split; [assumption|]. split; [assumption|]. split; [assumption|]. split; [assumption | reflexivity].
 Qed.
 
 Lemma lsn_cookie_lifetime : forall t0 steps1 s1 lo1 st s2 t req ids K steps2 s3 lo2 t',
@@ -1547,16 +1547,16 @@ Proof.
   simpl. destruct (id =? K) eqn:E2; [apply Z.eqb_eq in E2; subst; congruence | assumption].
 Qed.
 
-Lemma tab_fold_stable : forall ids t tab K g, tab_find K tab = Some g ->
-  tab_find K (fold_left (tab_add t) ids tab) = Some g.
+Lemma tab_fold_stable : forall l t tab K g, tab_find K tab = Some g ->
+  tab_find K (fold_left (tab_add t) l tab) = Some g.
 Proof.
-  induction ids as [|id r IH]; intros t tab K g H; [assumption|].
+  induction l as [|id r IH]; intros t tab K g H; [assumption|].
   simpl. apply IH. apply tab_add_stable. assumption.
 Qed.
 
-Lemma tab_fold_found : forall ids t tab K, In K ids -> exists g, tab_find K (fold_left (tab_add t) ids tab) = Some g.
+Lemma tab_fold_found : forall l t tab K, In K l -> exists g, tab_find K (fold_left (tab_add t) l tab) = Some g.
 Proof.
-  induction ids as [|id r IH]; intros t tab K Hin; [contradiction|].
+  induction l as [|id r IH]; intros t tab K Hin; [contradiction|].
   simpl. destruct Hin as [Heq | Hin]; [|apply IH; assumption]. subst id.
   assert (H : exists g, tab_find K (tab_add t tab K) = Some g).
   { unfold tab_add. destruct (tab_find K tab) eqn:E; [exists z; assumption|].
